@@ -521,6 +521,78 @@ def repeat_after_error(sx, w, tag, pre_ndef, op, msg, who):
     return "write-ok"
 
 
+def op_after_outage(sx, tt, op, kind1, kinds2):
+    """history through one tag object: an operation fails because the tag
+    misses all attempts of one command (a persistent error of kind1 from a
+    lazily chosen command on), the tag is back, and the NEXT operation meets
+    a burst shorter than the documented attempts (kinds2, length 1..2, at a
+    lazily chosen command): it must be absorbed like on a fresh tag object -
+    what a driver remembers about an outage must not cost the next operation
+    its retries"""
+    w = make_world(sx, tt, 5)
+    tag = w.fresh_tag()
+    if tag is None:
+        sx.check(False, "activate-returned-none:" + tt)
+    first = Burst(sx, [kind1], [4], modes=("cmd",))
+    w.sim.hook = first
+    try:
+        r1 = tag.is_present if op == "present" else tag.ndef
+        out1 = "done"
+    except nfc.tag.TagCommandError:
+        out1 = "error"
+    w.sim.hook = None
+    if not first.started:
+        sx.reach("no_fault")
+        return ["clean"]
+    sx.reach("outage_before_next_operation")
+    # the tag is back in the field; a fresh sense is what the application's
+    # polling loop does when an operation reported the tag gone
+    w.sim.mute = False
+    second = Burst(sx, list(kinds2), [1, 2])
+    second.k = 0
+
+    class Hook(object):         # (the second burst's flags have names of their own)
+        def __call__(self, sim, cmd):
+            if not second.started:
+                if sx.truth(sx.flag("second_burst_starts_at_cmd_%d" % second.k)):
+                    second.started = True
+                    second.at = second.k
+                    second.kind = sx.pick("kind2", list(kinds2))
+                    second.length = sx.pick("burst2", [1, 2])
+                    second.mode = sx.pick("lost2", ["cmd", "rsp"])
+                    second.left = second.length
+                else:
+                    second.k += 1
+                    return None
+            if second.left > 0:
+                second.left -= 1
+                exc = KINDS[second.kind][0]("injected")
+                if second.mode == "cmd":
+                    raise exc
+                return exc
+            return None
+    w.sim.hook = Hook()
+    who = "%s:%s:after-outage" % (tt, op)
+    try:
+        if op == "present":
+            r2 = tag.is_present
+            ok = r2 is True
+        else:
+            tag._ndef = None
+            nd = tag.ndef
+            ok = nd is not None and sx.truth(sx.eq(nd.octets, w.old))
+    except nfc.tag.TagCommandError:
+        ok = False
+    w.sim.hook = None
+    if not second.started:
+        sx.check(ok, "operation-after-outage-fails-without-fault:" + who)
+        return ["outage", "clean"]
+    sx.reach("short_burst_after_outage")
+    if not ok:
+        sx.check(False, "transient-burst-not-absorbed:%s:%s:len=%d" % (who, second.kind, second.length))
+    return ["outage", second.kind, second.length]
+
+
 def nak_then_gone(sx, tt, later):
     """a command is refused by the tag (NAK) and the tag has left the field
     when the reader tries to activate it again; every later operation on the
@@ -672,6 +744,12 @@ def partitions(tier):
             parts.append(dict(name="%s:%s:%s" % (tt, op, kind), fn="op_faults",
                               params=dict(tt=tt, op=op, kinds=[kind], lengths=lengths)))
     parts += vendor_partitions(tier)
+    for tt in ("tt1", "tt1dyn", "tt2", "tt3"):
+        for op in ("present", "read"):
+            for kind1 in (("timeout",) if tier == "quick" else ("timeout", "transmission")):
+                parts.append(dict(name="%s:%s:after-outage:%s" % (tt, op, kind1), fn="op_after_outage",
+                                  params=dict(tt=tt, op=op, kind1=kind1,
+                                              kinds2=["timeout", "transmission", "protocol"])))
     for later in (["present", "read"], ["ndef", "dump"], ["read", "write", "present"]):
         parts.append(dict(name="tt2:nak-then-gone:" + "+".join(later), fn="nak_then_gone",
                           params=dict(tt="tt2", later=later)))
@@ -682,7 +760,7 @@ def partitions(tier):
     return parts
 
 
-MUST_REACH = ["no_fault", "fault:timeout", "fault:transmission", "fault:protocol",
+MUST_REACH = ["outage_before_next_operation", "short_burst_after_outage", "no_fault", "fault:timeout", "fault:transmission", "fault:protocol",
               "absorbed", "ended_in_tag_command_error", "activation_with_fault",
               "repeated_after_error", "lite_authenticated_before_faults",
               "lites_authenticated_before_faults",
@@ -702,7 +780,7 @@ VENDOR_BOUNDS = {
     "quick": "; other vendor classes (concrete keys and contents, same burst model): FeliCa Standard IC 01h (env.tags.Tt3Sim standard=True: Request Response, Request System Code, Search Service Code, Request Service; one system 12FCh, area 0, services 0009h/000Bh) presence check x all kinds with bursts 1..3 and 6, 7 (3 x Request Response + 3 x Polling = persistent error, result must be False), read/write/dump for one kind each, IC 20h and Mobile FeliCa IC 10h presence check and read for one kind; MIFARE Ultralight C (env.tt2nxp_sim.UlcSim, 3DES handshake with real pyDes) authenticate(right password) x all kinds, protect(new password) x 2 kinds, read/write/present for one kind, NDEF write on a write-protected tag authenticated before the burst; NTAG213 (env.tt2nxp_sim.NxpHookSim) authenticate x all kinds, protect(new password) x 2 kinds, read/write/present one kind; Ultralight EV1 MF0UL21 authenticate, protect(new password) one kind; FeliCa Lite and Lite-S authenticate(right password) from the unauthenticated state x all kinds.  authenticate/protect with password: True and the card agrees (authenticated state, stored key) when the burst is shorter than three attempts, otherwise True, False or TagCommandError with the matching reason",
     "thorough": "; other vendor classes: FeliCa Standard IC 01h/20h and Mobile FeliCa IC 10h present/read/write/dump x all kinds (presence check with bursts 1..4, 6, 7); Ultralight C, NTAG213 and Ultralight EV1 MF0UL21 read/write/present/dump/protect (lock bits)/protect(new password)/authenticate x all kinds, NDEF read/write on write-protected tags authenticated before the burst; FeliCa Lite / Lite-S authenticate x all kinds"}
 BOUNDS = dict((k, v + LITE_BOUNDS + VENDOR_BOUNDS[k]) for k, v in BOUNDS.items())
-OUTSIDE = ["two separate bursts in one operation", "repeating an operation after an error on a Type 4 Tag (ISO-DEP state after a failed exchange: known finding of C12)", "vendor specific tag classes other than Topaz/Topaz-512, FeliCa Lite / Lite-S, FeliCa Standard / Mobile, MIFARE Ultralight C, NTAG21x (NTAG213) and Ultralight EV1 (MF0UL21): NTAG203, NTAG I2C, FeliCa Plug, plain MIFARE Ultralight, the other members of the NTAG21x / EV1 families (same code, other page numbers)", "authenticate() with a wrong password under faults; FeliCa Lite / Lite-S protect(); FeliCa Standard cards with more than one system or with nested areas, and their keyed services; access restrictions of NTAG21x / EV1 (AUTH0/PROT are not enforced by env.tt2nxp_sim.NxpSim); a frame that reaches the tag damaged (NAK, tag back in IDLE state)"]
+OUTSIDE = ["two separate bursts in one operation (two bursts in two successive operations of one tag object: the after-outage partitions)", "repeating an operation after an error on a Type 4 Tag (ISO-DEP state after a failed exchange: known finding of C12)", "vendor specific tag classes other than Topaz/Topaz-512, FeliCa Lite / Lite-S, FeliCa Standard / Mobile, MIFARE Ultralight C, NTAG21x (NTAG213) and Ultralight EV1 (MF0UL21): NTAG203, NTAG I2C, FeliCa Plug, plain MIFARE Ultralight, the other members of the NTAG21x / EV1 families (same code, other page numbers)", "authenticate() with a wrong password under faults; FeliCa Lite / Lite-S protect(); FeliCa Standard cards with more than one system or with nested areas, and their keyed services; access restrictions of NTAG21x / EV1 (AUTH0/PROT are not enforced by env.tt2nxp_sim.NxpSim); a frame that reaches the tag damaged (NAK, tag back in IDLE state)"]
 ASSUMPTIONS = ["a failing exchange either never reaches the tag or is executed with the response lost",
                "FeliCa Lite / Lite-S worlds: env.tt3lite_sim.LiteHookSim with real pyDes on both sides (key, challenge from a fixed os.urandom stub, contents and the written message are concrete); the tag counts executed writes with MAC (WCNT)",
                "FeliCa Standard / Mobile worlds: env.tags.Tt3Sim with standard=True answers Request Response (mode 0), Request System Code (12FCh), Search Service Code (area 0000h-FFFEh, services 0009h, 000Bh) and Request Service; the IC code in PMm selects the nfcpy class",
